@@ -153,6 +153,12 @@ def oracle(ctx, obs, spans, windows):
                 and r["class"] != "err":
             ctx.violation("S5", f"an external signal angle of 90 degrees or more is not rejected (outcome {r['class']})",
                           {"kind": "rule_external_range"}, detail)
+        idl0 = o["cfg"]["idler"]
+        if idl0 != "auto" and idl0["theta_deg"] is None and idl0["theta_external_deg"] is not None \
+                and abs(f64_of_hex(idl0["theta_external_deg"])) >= 90.0 and not k["ls_le_lp"] and not bool(orc.get("index_panics")) \
+                and r["class"] != "err":
+            ctx.violation("S5", f"an external IDLER angle of 90 degrees or more is not rejected (outcome {r['class']})",
+                          {"kind": "rule_external_range", "beam": "idler"}, detail)
         if fl.get("total_reflection") and k["theta_auto"] and k["pp"] == "off" and "snell_ext" in orc and orc["snell_ext"] is None \
                 and not bool(orc.get("index_panics")) and not k["ls_le_lp"] and r["class"] != "err":
             ctx.violation("S5", f"automatic crystal angle for a signal beyond total internal reflection is not rejected (outcome {r['class']})",
@@ -211,14 +217,18 @@ def oracle(ctx, obs, spans, windows):
                               + (" (the reference -- the optimised setup's JSI at its centre -- is exactly 0)" if cause != "other" else ""),
                               {"kind": "calls_nonfinite", "what": "jsi_normalized", "cause": cause}, dict(detail, calls=calls))
             elif calls["inside_window"] and calls["nonfinite"]:
-                # the observed cause: the coincidence rate over the grid is exactly 0 (an identically zero JSA is the extreme case);
-                # or: the JSA itself is NaN for a counter-propagating, non-collinear setup with an explicit poling period
-                cp = o["cfg"]["crystal"]["counter"] is True and "jsa" in calls["nonfinite"] and o["cfg"]["pp"] != "off" \
-                    and o["cfg"]["pp"]["period_um"] != "auto" and f64_of_hex(r["setup"]["signal"]["theta"]) != 0.0
-                cause = "zero_coincidence_counts" if f64_of_hex(calls["cc"]) == 0.0 else ("counter_propagation_explicit_period_noncollinear" if cp else "other")
+                # the OBSERVED cause: the coincidence rate over the grid is exactly 0 (an identically zero JSA is the extreme case); or
+                # the first intermediate quantity of the JSA at the setup's centre that is not finite (public accessors, in the code's
+                # order: external angles, delta k, pump amplitude, phase-matching integrand)
+                fnf = calls.get("first_nonfinite", "none")
+                cause = "zero_coincidence_counts" if f64_of_hex(calls["cc"]) == 0.0 else \
+                    ("idler_external_angle_undefined" if "jsa" in calls["nonfinite"] and fnf == "idler_external_angle" else
+                     ("first_nonfinite:" + fnf if fnf != "none" else "other"))
                 ctx.violation("S5", f"non-finite {calls['nonfinite']} from a successfully constructed setup on an in-window grid"
-                              + (" (the coincidence JSA integrates to 0 on the grid: 0/0 in the rate normalisation)" if cause != "other" else ""),
-                              {"kind": "calls_nonfinite", "what": "jsa" if cause.startswith("counter_propagation") else ",".join(calls["nonfinite"]),
+                              + (" (the coincidence JSA integrates to 0 on the grid: 0/0 in the rate normalisation)" if cause == "zero_coincidence_counts" else
+                                 " (the idler is beyond total internal reflection: idler.theta_external is NaN and enters the phase-matching integrand)"
+                                 if cause == "idler_external_angle_undefined" else ""),
+                              {"kind": "calls_nonfinite", "what": "jsa" if cause == "idler_external_angle_undefined" else ",".join(calls["nonfinite"]),
                                "cause": cause}, dict(detail, calls=calls))
 
 
@@ -280,6 +290,7 @@ def composed_checks(ctx, obs, label="C17nm", limit=40):
         C17_period_is_C04); collinear signal: |p| = 2 pi / |dkz| (C04_collinear_root); automatic crystal angle in [0, pi/2]."""
     from props import c04 as c04mod
     cases, index = [], {}
+    pending = []
     nbad = 0
     for o in obs:
         if o.get("kind") != "cfg" or o["parse"] != "ok":
@@ -287,10 +298,10 @@ def composed_checks(ctx, obs, label="C17nm", limit=40):
         orc = o["shadow"]["oracles"]
         detail = {"config": o["json"], "tags": o["tags"]}
         tr = orc.get("nm_period_trace")
-        if tr and len(cases) < limit:
-            cid = f"n{o['id']}"
-            cases.append((cid, c04mod.nm_expr_table(dict(tr, result={"x": tr["result"]}))))
-            index[cid] = o
+        if tr:
+            # tables with NaN costs (undefined candidates: the F7h class; the solver and Model/NM1d.v treat them as +infinity) first
+            has_nan = any(f64_of_hex(c_) != f64_of_hex(c_) for _, c_ in tr["table"])
+            pending.append((0 if has_nan else 1, len(pending), o, tr, has_nan))
         st = {s["step"]: s for s in o["shadow"]["steps"]}
         sp = st.get("optimum_poling_period")
         z = orc.get("dkz0")
@@ -328,6 +339,12 @@ def composed_checks(ctx, obs, label="C17nm", limit=40):
             ctx.case_failures.append(dict(detail, problem=pr))
             ctx.violation("S4", "prediction of the composed model (C03/C04 kernels) fails on the implementation: " + pr,
                           {"kind": "composed_prediction", "what": pr.split(":")[0][:40]}, dict(detail, problem=pr), found_input=False)
+    for _, _, o, tr, has_nan in sorted(pending, key=lambda t: t[:2])[:limit]:
+        cid = f"n{o['id']}"
+        cases.append((cid, c04mod.nm_expr_table(dict(tr, result={"x": tr["result"]}))))
+        index[cid] = o
+        if has_nan:
+            ctx.count("nm_period_tables_with_nan_costs")
     if cases:
         imports = ("From Coq Require Import List Bool ZArith Floats.\nFrom SpdVerif Require Import Model.NM1d Proofs.C04_cases.\n"
                    "Import ListNotations.\nLocal Open Scope float_scope.\n")
@@ -471,12 +488,13 @@ def run(ctx):
         "lambda_s <= lambda_p is an error": "proved for every configuration (C17_rule_signal_le_pump: the entry validation read off the source by the generator) + validated in every auto/explicit combination",
         "an explicit poling period of 0 is an error": "proved (C17_rule_bad_period) + validated",
         "auto poling period that does not fit is an error": "proved (rule on the simplex result) + validated with the replayed search",
-        "never panics": "proved on the repaired code (C17_repairs_now pins the four repair flags): C17_no_panic_full assumes only that the Snell "
-                        "inverse answers and that the crystal-angle search answers for a signal whose external angle exists; a signal beyond total "
-                        "internal reflection, an external angle >= 90 deg, a period search that finds nothing and an unevaluable crystal expression "
-                        "are ERRORS (rules 6, 7, 4', S5 rule_bad_crystal); composed model: C17_no_panic_composed_full; the panic sites are scanned "
-                        "over the whole call graph; reverting a repair gives a concrete-input violation",
-        "all derived values finite / period infinite only when poling off": "proved_partial (per configuration: idler angle defined, index along z not 0, unpoled mismatch not exactly 0) + validated incl. the three refractive indices",
+        "never panics": "proved for every configuration and EVERY oracle record on the repaired code (C17_no_panic_full; the only hypothesis is "
+                        "the carrier law scale_order): the wavelengths are validated first, no nelder_mead_1d call can fail (the flag "
+                        "searches_cannot_fail, read off Cost1d::cost, is applied to all three searches of the model), a signal beyond total "
+                        "internal reflection / an external angle >= 90 deg (signal or idler) / a period search that finds nothing / an unevaluable "
+                        "crystal expression are ERRORS (rules 6, 7, 4', S5 rule_bad_crystal); C17_flags_now / C17_repairs_now pin the flags and "
+                        "reverting a repair gives a concrete-input violation; panic sites scanned over the whole call graph",
+        "all derived values finite / period infinite only when poling off": "proved_partial (C17_ok_finite_or_err_partial / _composed_partial: needs, per configuration, the results of its searches finite, its idler angle defined, the index along z not 0, the unpoled mismatch not exactly 0) + validated incl. the three refractive indices",
         "spectrum/rate/HOM calls finite": "validated_only (in-window 3x3 / 5x5 grids, three integrators, on constructed setups; normalised spectrum included; known: F7d, F7e)"}
     return finish(ctx, assumptions=[
         "L4 structural model: numerical kernels (Snell maps, simplex searches, delta k, idler angle, waist position) are oracles; their "
